@@ -1,6 +1,7 @@
 #![recursion_limit = "512"]
 #![allow(clippy::too_many_arguments, clippy::type_complexity)]
 
+mod builders;
 mod campaign;
 mod convert;
 mod crash;
@@ -11,12 +12,17 @@ mod exec;
 mod fin;
 mod r#gen;
 mod heap;
+mod impls;
+mod inputs;
+mod inputs_main;
+mod layout;
 mod lang;
 mod model;
 mod obs;
 mod profiles;
 mod run;
 mod templates;
+mod zst;
 
 #[global_allocator]
 static ALLOC: obs::TrackAlloc = obs::TrackAlloc;
@@ -64,15 +70,18 @@ fn threads() -> usize {
 fn worker(prop: &str, tier: &str, tag: &str) -> i32 {
     let t0 = Instant::now();
     let root = root_dir();
-    let Some(plan) = profiles::plan(prop) else {
-        eprintln!("gcverif: {prop} is not decided by the history engine");
-        return 2;
-    };
     let seed = seed();
     let thorough = tier == "thorough";
     let _ = std::fs::create_dir_all(format!("{root}/failures"));
     crash::install(&format!("{root}/failures/{prop}-crash-{tag}.json"));
     let _ = std::fs::remove_file(format!("{root}/failures/{prop}-crash-{tag}.json"));
+    if matches!(prop, "C16" | "C17" | "C18") {
+        return input_worker(prop, tier, tag, seed, thorough, &root);
+    }
+    let Some(plan) = profiles::plan(prop) else {
+        eprintln!("gcverif: {prop} is not decided by this engine");
+        return 2;
+    };
 
     let mut total = campaign::CampaignResult::default();
     // 1. directed templates and the regression corpus
@@ -112,11 +121,27 @@ fn worker(prop: &str, tier: &str, tag: &str) -> i32 {
             merge(&mut total, r);
         }
     }
+    let mut zst_info = serde_json::json!(null);
+    let mut zst_failure: Option<String> = None;
+    if prop == "C19" {
+        let (cells, cached, first) = inputs_main::zst_table_run();
+        zst_info = serde_json::json!({"cells": cells, "cells_answered_with_the_shared_pointer": cached, "exhaustive_for": "cache alignments {1..4096, 65536, 1048576} x type alignments 1..4096 x size {0, >0} plus zero-sized types with destructors"});
+        total.evaluations += cells as u64;
+        zst_failure = first;
+    }
     let wall = t0.elapsed().as_secs_f64();
 
     // 3. report
     let mut code = 0;
     let mut violations = 0;
+    if let Some(m) = &zst_failure {
+        violations = 1;
+        let path = format!("{root}/failures/{prop}-zstcache.json");
+        let _ = std::fs::write(&path, serde_json::to_string_pretty(&serde_json::json!({"property": prop, "kind": "zst-table", "message": m})).unwrap());
+        println!("violated oracle: C19 zst-cache — {m}");
+        println!("VIOLATION property={prop} replay={path}");
+        code = 1;
+    }
     if !total.internal.is_empty() {
         eprintln!("gcverif: INTERNAL ERROR (cannot decide): {}", total.internal[0]);
         code = 2;
@@ -146,6 +171,7 @@ fn worker(prop: &str, tier: &str, tag: &str) -> i32 {
         "threads": threads(),
         "classes": total.cov.to_json(),
         "violations_of_other_properties_seen_and_ignored_here": total.other_prop,
+        "zst_cache_table": zst_info,
     });
     if samples.is_empty() {
         cov["samples"] = serde_json::json!([{"note": "no non-trivial case generated"}]);
@@ -182,6 +208,11 @@ fn replay(path: &str) -> i32 {
         }
     };
     let prop = evidence::prop_from_file_text(&s);
+    if let Ok(v) = serde_json::from_str::<serde_json::Value>(&s) {
+        if let Some(kind) = v.get("kind").and_then(|k| k.as_str()) {
+            return replay_input(kind, &v, prop.as_deref().unwrap_or("?"), path);
+        }
+    }
     let case = match evidence::case_from_file_text(&s) {
         Ok(c) => c,
         Err(e) => {
@@ -209,4 +240,127 @@ fn replay(path: &str) -> i32 {
         println!("no violation reproduced");
         0
     }
+}
+
+fn replay_input(kind: &str, v: &serde_json::Value, prop: &str, path: &str) -> i32 {
+    let o = match kind {
+        "layout" => match serde_json::from_value::<layout::LCase>(v["case"].clone()) {
+            Ok(c) => inputs_main::layout_outcome(&c),
+            Err(e) => {
+                eprintln!("cannot parse case: {e}");
+                return 2;
+            }
+        },
+        "builders" => match serde_json::from_value::<builders::BCase>(v["case"].clone()) {
+            Ok(c) => inputs_main::builders_outcome(&c),
+            Err(e) => {
+                eprintln!("cannot parse case: {e}");
+                return 2;
+            }
+        },
+        "impls" => match serde_json::from_value::<impls::ICase>(v["case"].clone()) {
+            Ok(c) => inputs_main::impls_outcome(&c),
+            Err(e) => {
+                eprintln!("cannot parse case: {e}");
+                return 2;
+            }
+        },
+        "zst-table" => {
+            let (_, _, first) = inputs_main::zst_table_run();
+            inputs::Outcome { errors: first.into_iter().collect(), ..Default::default() }
+        }
+        "needs-trace-table" => {
+            let mut o = inputs::Outcome::default();
+            for (ty, got, want) in impls::nt_table() {
+                if got != want {
+                    o.errors.push(format!("<{ty} as Collect>::NEEDS_TRACE is {got}, expected {want}"));
+                }
+            }
+            o
+        }
+        other => {
+            eprintln!("unknown failure kind {other}");
+            return 2;
+        }
+    };
+    println!("case: {}", v["case"]);
+    for e in &o.errors {
+        println!("oracle: {e}");
+    }
+    if o.errors.is_empty() {
+        println!("no violation reproduced");
+        0
+    } else {
+        println!("VIOLATION property={prop} replay={path}");
+        1
+    }
+}
+
+fn input_worker(prop: &str, tier: &str, tag: &str, seed: u64, thorough: bool, root: &str) -> i32 {
+    let Some(rep) = inputs_main::run(prop, thorough, seed, threads()) else { return 2 };
+    let kind = match prop {
+        "C17" => "layout",
+        "C18" => "builders",
+        _ => "impls",
+    };
+    let r = &rep.result;
+    let mut code = 0;
+    let mut violations = 0;
+    if !r.internal.is_empty() {
+        eprintln!("gcverif: INTERNAL ERROR (cannot decide): {}", r.internal[0]);
+        code = 2;
+    }
+    if let Some(m) = &rep.fixed_failure {
+        violations = 1;
+        let path = format!("{root}/failures/{prop}-needs-trace.json");
+        let _ = std::fs::write(&path, serde_json::to_string_pretty(&serde_json::json!({"property": prop, "kind": "needs-trace-table", "message": m, "case": null})).unwrap());
+        println!("violated oracle: {m}");
+        println!("VIOLATION property={prop} replay={path}");
+        code = 1;
+    } else if let Some((json, msg)) = &r.failure {
+        violations = 1;
+        use std::hash::{Hash, Hasher};
+        let mut h = std::collections::hash_map::DefaultHasher::new();
+        json.hash(&mut h);
+        let path = format!("{root}/failures/{prop}-{:016x}.json", h.finish());
+        let body = serde_json::json!({"property": prop, "kind": kind, "message": msg, "case": serde_json::from_str::<serde_json::Value>(json).unwrap()});
+        let _ = std::fs::write(&path, serde_json::to_string_pretty(&body).unwrap());
+        println!("violated oracle: {msg}");
+        println!("minimal case: {json}");
+        println!("VIOLATION property={prop} replay={path}");
+        code = 1;
+    }
+    let distinct = r.classes.len() as u64;
+    if code == 0 && distinct < 2 {
+        eprintln!("gcverif: only {distinct} distinct non-trivial classes for {prop}: cannot decide");
+        code = 2;
+    }
+    let samples: Vec<serde_json::Value> = r.samples.iter().filter_map(|s| serde_json::from_str(s).ok()).collect();
+    let mut cov = serde_json::json!({
+        "evaluations": r.evaluations,
+        "distinct_nontrivial": distinct,
+        "nontrivial_cases": r.nontrivial_cases,
+        "distinct_nontrivial_case_hashes": r.distinct_hashes.len(),
+        "rule": rep.rule,
+        "samples": samples,
+        "exhaustive": false,
+        "build": tag,
+        "classes": r.classes,
+        "counters": r.counters,
+        "extra": rep.extra,
+    });
+    if let Some(e) = rep.exhaustive_part {
+        cov["exhaustive_part"] = serde_json::json!(e);
+    }
+    if samples.is_empty() {
+        cov["samples"] = serde_json::json!([{"note": "no non-trivial case generated"}]);
+    }
+    let assumptions = [
+        "the tracking global allocator reports requested and released layouts and red-zone damage faithfully",
+        "the harness's own Collect / PtrMeta impls for its test types are correct",
+        "bounds: sizes <= 4096 bytes, alignments <= 4096, lengths <= 300 (builders <= 40); destructor panics and allocation failure are not generated",
+    ];
+    evidence::write_part(root, prop, tier, seed, tag, cov, &assumptions, rep.wall, violations);
+    println!("{prop} {tier} [{tag}]: {} cases, {} distinct non-trivial classes, {:.1}s, exit {code}", r.evaluations, distinct, rep.wall);
+    code
 }
